@@ -53,6 +53,17 @@ Input classes added when the check was strengthened (all part of A1 / A2):
    flags an analysis pass leaves on the rules after construction.  Oracles: the result of the same call on a model of
    its own that no other thread ever touched, for the leader, for every follower and for a LATER sequential parse on
    the shared model (a shared model left wrong for good makes the threads and the later parse agree, wrongly).
+ * grammars that are NOT in the optimizer's normal form (16-18, generated from the seed): groups around one element or
+   around a group, optionals directly inside optionals / around closures and joins, groups as bodies of closures, joins,
+   gathers, named / override / lookahead / skip elements around groups, choices with a leading bar, rules that only call
+   another rule (chains), rule includes, rules with parameters / node types / decorators, directives - inside longer
+   sequences and choices.  The first parse with a model builds (and caches on it) Grammar.optimized(): a rewritten COPY
+   that shares nodes and containers with the model the caller - and, through the compile cache, every other caller -
+   holds.  Every grammar of the pool before was already in normal form, so that copy was the identity and "a parse never
+   alters the grammar model" was only ever checked where there was nothing to alter.  The model is now looked at in four
+   ways before / after every parse and in every compile result: asjson, a direct walk over node classes and declared
+   fields, pretty(), pretty_lean().  Directed histories use a compiled grammar in every other way (generate the source,
+   compile again, build the generated parser) before and after the first parse (ok or failed, model.parse or tatsu.parse).
 """
 from __future__ import annotations
 
@@ -61,6 +72,7 @@ import json
 import os
 import subprocess
 import sys
+import random as _random
 import threading
 from concurrent.futures import ThreadPoolExecutor
 from pathlib import Path
@@ -361,14 +373,50 @@ def canon_exc(e):
     if isinstance(pos, int): r['pos'] = pos
     return r
 
+def model_structure(m):
+    """the grammar model as a program that holds it can walk it: the class of every node and its declared fields, down
+    from the grammar through rules, expressions and their containers - read directly, neither through asjson() nor
+    through pretty() (both are ways of LOOKING at the model and are compared separately)"""
+    from tatsu.peg.base import Model
+    onpath = set()
+    def walk(x, depth):
+        if isinstance(x, (str, bytes, int, float, bool, type(None))): return [type(x).__name__, repr(x)]
+        if isinstance(x, re.Pattern): return ['re', x.pattern, x.flags]
+        if depth > 80 or id(x) in onpath: return '<cycle>'
+        onpath.add(id(x))
+        try:
+            if isinstance(x, dict): return {'$dict': [[walk(k, depth + 1), walk(v, depth + 1)] for k, v in x.items()]}
+            if isinstance(x, (list, tuple)): return [walk(v, depth + 1) for v in x]
+            if isinstance(x, (set, frozenset)): return {'$set': sorted(jdump(walk(v, depth + 1)) for v in x)}
+            if isinstance(x, Model):
+                if dataclasses.is_dataclass(x):
+                    names = [f.name for f in dataclasses.fields(x)]
+                else:
+                    names = sorted(vars(x))
+                names = [k for k in names if not k.startswith('_') and k not in ('ast', 'ctx', 'parseinfo')]
+                return [type(x).__name__, {k: walk(getattr(x, k, None), depth + 1) for k in names}]
+            return '<' + type(x).__name__ + '>'
+        finally:
+            onpath.discard(id(x))
+    return jdump(walk(m, 0))
+
+def model_looks(m):
+    """(structure, pretty, lean pretty) of a grammar model (str() of a Grammar is the default repr with an address)"""
+    out = []
+    for f in (lambda: model_structure(m), lambda: m.pretty(), lambda: m.pretty_lean()):
+        try: out.append(f())
+        except Exception as e: out.append('raises-' + type(e).__name__)
+    return out
+
 def canon_model(m):
     try:
         dig = hashlib.sha256(jdump(asjson(m)).encode()).hexdigest()[:16]
     except Exception as e:
         dig = 'asjson-raises-' + type(e).__name__
+    looks = [hashlib.sha256(x.encode()).hexdigest()[:12] for x in model_looks(m)]
     return {'ok': 'model', 'pytype': type(m).__name__, 'name': getattr(m, 'name', None),
             'rules': [r.name for r in getattr(m, 'rules', ())], 'sem': sem_kind(getattr(m, 'semantics', None)),
-            'digest': dig, 'types': {}}
+            'digest': dig, 'looks': looks, 'types': {}}
 
 def cfg_snapshot(c):
     if c is None: return None
@@ -376,8 +424,10 @@ def cfg_snapshot(c):
     d['semantics'] = sem_kind(d.get('semantics'))
     return jdump(d)
 
+SNAP_PARTS = ('asjson', 'config', 'name', 'rules', 'structure', 'pretty', 'pretty-lean')
+
 def model_snapshot(m):
-    return (jdump(asjson(m)), cfg_snapshot(m.config), m.name, [r.name for r in m.rules])
+    return (jdump(asjson(m)), cfg_snapshot(m.config), m.name, [r.name for r in m.rules], *model_looks(m))
 
 def compile_kwargs(a):
     kw = dict(SETTINGS[a['cs']])
@@ -456,7 +506,7 @@ def run_op(env, op):
             r = canon_exc(e)
         after = model_snapshot(m)
         if before != after:
-            r['mutated'] = [n for n, x, y in zip(('asjson', 'config', 'name', 'rules'), before, after) if x != y]
+            r['mutated'] = [n for n, x, y in zip(SNAP_PARTS, before, after) if x != y]
         if cfg_before != cfg_snapshot(cfgobj):
             r['mutated'] = r.get('mutated', []) + ['config-argument']
         return r
@@ -1302,7 +1352,7 @@ class Zygote:
             raise RuntimeError('zygote died')
         r = json.loads(line)
         if isinstance(r, dict) and 'worker-error' in r:
-            raise RuntimeError('worker: ' + r['worker-error'])
+            raise RuntimeError('worker: ' + r['worker-error'] + ' script=' + json.dumps(script)[:3000])
         return unwrap(r)
 
     def close(self):
@@ -1427,6 +1477,11 @@ LREC_GRAMS = [13, 14, 15]       # seed-generated left-recursive grammars (thread
 for _g in LREC_GRAMS:
     NTEXT[_g] = 6
 GSTARTS.update({13: [0, 0, 1], 14: [0, 0, 1, 2], 15: [0, 0, 1]})
+SHAPE_GRAMS = [16, 17, 18]      # seed-generated grammars NOT in the optimizer's normal form (see gen_shape_family)
+GRAMS += SHAPE_GRAMS
+for _g in SHAPE_GRAMS:
+    NTEXT[_g] = 6
+    GSTARTS[_g] = [0, 0, 0, 1, 7]
 TYPED_GRAMS = [2, 3, 4, 5]      # grammars whose rules name node types (rule::Type): classes are synthesized on first use
 ALL_SEMS = [1, 2, 3, 4, 5, 6, 7, 8]
 TWIN_SEMS = {7, 8}
@@ -1538,6 +1593,163 @@ def gen_leftrec_family(rng):
     t15 = [sel15(1, 2), sel15(1, 3), sel15(2, 4), rng.choice(names), sel15(1, 2) + dot, sel15(1, 1) + lb]
     return {'grammars': {13: g13, 14: g14, 15: g15}, 'texts': {13: t13, 14: t14, 15: t15},
             'describe': {'13': g13.strip().split('\n'), '14': g14.strip().split('\n'), '15': g15.strip().split('\n')}}
+
+
+# ---- grammars that are not in the optimizer's normal form
+SHAPE_WORDS = [a + b + c for a in 'kmprstvz' for b in 'aeiou' for c in 'kmnprst']
+
+
+def gen_shape_family(rng):
+    """Three grammars, generated from the seed, whose rules are written the way people (and generators of grammars)
+    write them and NOT in the normal form the optimizer produces: groups around one element or around a group, an
+    optional directly inside an optional / around a closure / a join, groups as bodies of closures, joins and gathers,
+    named / override / lookahead / skip elements around groups, one-element sequences, choices with a leading bar,
+    rules that only call another rule (chains of 2-3), rule includes, rules with parameters / keyword parameters /
+    node types / decorators, directives - all of them INSIDE longer sequences and choices.  Grammar.optimized() (run by
+    the first parse, its result cached on the model) rewrites every one of these shapes in a copy of the model that
+    shares nodes and containers with the model the caller holds.  Every token occurs once in a grammar and choices /
+    closure bodies start with a token, so a derivation parses; texts: 4 random derivations, one that stops early,
+    one with a foreign word."""
+    grammars, texts, describe = {}, {}, {}
+    for g in SHAPE_GRAMS:
+        words = list(SHAPE_WORDS)
+        rng.shuffle(words)
+        tok = words.pop
+        names = iter('abcdefghijklmnopq')
+        rules = {}          # name -> derivation
+
+        def leaf(calls=True):
+            r = rng.random()
+            if calls and rules and r < 0.25:
+                n = rng.choice(sorted(rules))
+                return n, rules[n], False
+            if r < 0.4:
+                # (a pattern does not skip whitespace by itself; a rule call does)
+                return 'ident', (lambda q: [str(q.randrange(1000))]), False
+            t = tok()
+            return f"'{t}'", (lambda q: [t]), False
+
+        def solid(e):
+            """an element that consumes something (body of a closure, head of an alternative)"""
+            s, d, nullable = e
+            if not nullable:
+                return e
+            t = tok()
+            return f"('{t}' {s})", (lambda q: [t] + d(q)), False
+
+        def inner(depth):
+            """what stands between brackets: ONE element (a redundant bracket), a sequence, or a choice"""
+            r = rng.random()
+            if r < 0.45:
+                return elem(depth)
+            if r < 0.75:
+                es = [elem(depth) for _ in range(rng.choice([2, 2, 3]))]
+                return (' '.join(e[0] for e in es), (lambda q: [w for e in es for w in e[1](q)]),
+                        all(e[2] for e in es))
+            alts = []
+            for _ in range(rng.choice([2, 2, 3])):
+                t = tok()
+                es = [elem(depth - 1) for _ in range(rng.choice([0, 1, 1, 2]))]
+                cut = ' ~' if es and rng.random() < 0.2 else ''
+                alts.append((f"'{t}'{cut}" + ''.join(' ' + e[0] for e in es),
+                             (lambda q, t=t, es=es: [t] + [w for e in es for w in e[1](q)])))
+            bar = '| ' if rng.random() < 0.3 else ''
+            return bar + ' | '.join(a[0] for a in alts), (lambda q: q.choice(alts)[1](q)), False
+
+        def elem(depth, plain=False):
+            if depth <= 0:
+                return leaf()
+            k = rng.choice(['group', 'group', 'group', 'opt', 'opt', 'clo', 'join', 'skip', 'look', 'leaf', 'leaf']
+                           + ([] if plain else ['named', 'named', 'over']))
+            if k == 'leaf':
+                return leaf()
+            if k == 'group':
+                s, d, n = inner(depth - 1)
+                return f'({s})', d, n
+            if k == 'opt':
+                s, d, _ = inner(depth - 1)
+                return f'[{s}]', (lambda q: d(q) if q.random() < 0.6 else []), True
+            if k == 'clo':
+                s, d, _ = solid(inner(depth - 1))
+                plus = rng.random() < 0.5
+                return ('{' + s + '}' + ('+' if plus else ''),
+                        (lambda q: [w for _ in range(q.randrange(1 if plus else 0, 4)) for w in d(q)]), not plus)
+            if k == 'join':
+                s, d, _ = solid(inner(depth - 1))
+                plus = rng.random() < 0.5
+                sep, op = tok(), rng.choice(['.', '.', '%'])
+                def dj(q):
+                    out = []
+                    for j in range(q.randrange(1 if plus else 0, 4)):
+                        out += ([sep] if j else []) + d(q)
+                    return out
+                return f"'{sep}'{op}{{{s}}}" + ('+' if plus else ''), dj, not plus
+            if k in ('named', 'over'):
+                s, d, n = elem(depth - 1, plain=True)
+                if k == 'named':
+                    return next(names) + rng.choice([':', ':', '+:']) + s, d, n
+                return rng.choice(['@:', '@:', '@+:']) + s, d, n
+            if k == 'skip':
+                s, d, n = inner(depth - 1)
+                return f'(?:{s})', d, n
+            s, d, n = leaf(calls=False)
+            if rng.random() < 0.5:
+                return f"(&({s}) {s})", d, n
+            return f"(!('{tok()}') {s})", d, n
+
+        def redundant():
+            """an element the optimizer certainly rewrites, whatever the dice say"""
+            t, u = tok(), tok()
+            k = rng.randrange(8)
+            if k == 6: return f"['{t}' ('{u}')]", (lambda q: [t, u] if q.random() < 0.6 else []), True
+            if k == 7: return f"{next(names)}:('{t}' | '{u}' ('{t}'))", (lambda q: [t] if q.random() < 0.5 else [u, t]), False
+            if k == 0: return f"('{t}')", (lambda q: [t]), False
+            if k == 1: return f"(('{t}'))", (lambda q: [t]), False
+            if k == 2: return f"[['{t}']]", (lambda q: [t] if q.random() < 0.6 else []), True
+            if k == 3: return f"[{{'{t}'}}]", (lambda q: [t] * q.randrange(3)), True
+            if k == 4: return f"('{t}' ('{u}'))", (lambda q: [t, u]), False
+            return f"{{('{t}')}}+", (lambda q: [t] * q.randrange(1, 3)), False
+
+        lines = []
+        heads = {'num': rng.choice(['num', 'num', '@nomemo\nnum']),
+                 'atom': rng.choice(['atom', 'atom::Atm', 'atom(1)']),
+                 'pair': rng.choice(['pair', 'pair::Par', "pair(2, k=3)"]),
+                 'item': rng.choice(['item', 'item', 'item::Itm'])}
+        for rn in ('num', 'atom', 'pair', 'item'):
+            s, d, _ = inner(1) if rn == 'pair' else leaf(calls=False)
+            if rn == 'pair':
+                t, (s2, d2, _) = tok(), redundant()
+                s, d = f"'{t}' {s2} ({s})", (lambda q, t=t, d=d, d2=d2: [t] + d2(q) + d(q))
+            lines.append(f'{heads[rn]} = {s} ;')
+            rules[rn] = d
+        # rules that only call another rule, a rule include
+        target = rng.choice(['atom', 'pair', 'item'])
+        chain = ['al', 'al2', 'al3'][:rng.choice([2, 2, 3])]
+        for a, b in zip(chain, chain[1:] + [target]):
+            lines.append(f'{a} = {b} ;')
+        for a in chain:
+            rules[a] = rules[target]
+        inc, t = rng.choice(['num', 'atom']), tok()
+        lines.append(f"term = >{inc} '{t}' ;")
+        rules['term'] = (lambda q, inc=inc, t=t, rules=rules: rules[inc](q) + [t])
+        es = [elem(2) for _ in range(rng.choice([1, 2]))]
+        for _ in range(2):
+            es.insert(rng.randrange(1, len(es) + 1), redundant())
+        es.insert(rng.randrange(len(es) + 1), ('al', rules['al'], False))
+        es.insert(rng.randrange(len(es) + 1), ('term', rules['term'], False))
+        dstart = lambda q, es=es: [w for e in es for w in e[1](q)]
+        start = 'start = ' + ' '.join(e[0] for e in es) + ' $ ;'
+        lines.append('ident = /\\d+/ ;')
+        lines.insert(0, start)          # the first rule is the default start rule
+        dirs = rng.sample(['@@grammar :: Shp%d' % g, '@@nameguard :: True', '@@parseinfo :: False',
+                           '@@keyword :: %s %s' % (tok(), tok()), '@@left_recursion :: False'], rng.choice([0, 1, 2, 3]))
+        grammars[g] = '\n' + '\n'.join(dirs + lines) + '\n'
+        q = _random.Random(rng.random())
+        ds = [dstart(q) for _ in range(4)]
+        texts[g] = [' '.join(d) for d in ds] + [' '.join(ds[0][:max(1, len(ds[0]) - 1 - q.randrange(3))]),
+                                                ' '.join(ds[1][:len(ds[1]) // 2] + ['xq'] + ds[1][len(ds[1]) // 2:])]
+        describe[str(g)] = grammars[g].strip().split('\n')
+    return {'grammars': grammars, 'texts': texts, 'describe': describe}
 
 
 # ---- regex-valued settings in different forms
@@ -1660,12 +1872,44 @@ def directed_regex_forms(rng):
     return out
 
 
+def directed_model_use(rng, everything=False):
+    """What a program does with a compiled grammar besides parsing with it - generate the parser source, ask compile for
+    it again (the cache hands out the same object), look at it (the compile result carries digests of asjson, of a walk
+    over the node classes and fields, of pretty() / pretty_lean()) - BEFORE and AFTER the first parse with it,
+    after a first parse that FAILED, and after a first parse that came through the other entry point (tatsu.parse with
+    the same grammar text gets the cached model); then the generated parser built from the source obtained after the
+    parse.  For the grammars that are not in the optimizer's normal form and a sample of the others (all in thorough)."""
+    out = []
+    others = [g for g in GRAMS if g not in SHAPE_GRAMS]
+    for g in SHAPE_GRAMS + (others if everything else rng.sample(others, 3)):
+        nm = rng.choice([0, 1, 2])
+        ca = {'g': g, 'name': nm, 'sem': None, 'asmodel': False, 'bopt': None, 'cs': 0}
+        ga = {'g': g, 'name': nm, 'cs': 0}
+        def pp(bad=False):
+            tx = NTEXT[g] - 1 if bad else rng.randrange(max(1, NTEXT[g] - 2))
+            return {'g': g, 'text': tx, 'start': 0, 'ps': 0, 'sem': None, 'asmodel': False, 'cfgobj': None}
+        def tt(bad=False):
+            t = dict(pp(bad), name=nm, ts=0, bopt=None)
+            del t['ps']
+            return t
+        first_bad = rng.random() < 0.3
+        out.append([{'op': 'compile', 'var': 0, 'a': ca}, {'op': 'gen', 'var': 0, 'a': ga},
+                    {'op': 'mparse', 'var': 0, 'p': pp(first_bad)}, {'op': 'gen', 'var': 1, 'a': ga},
+                    {'op': 'compile', 'var': 1, 'a': ca}, {'op': 'mparse', 'var': 1, 'p': pp()},
+                    {'op': 'mkparser', 'var': 0, 'src': 1, 'cs': 0, 'sem': None, 'ccfg': None},
+                    {'op': 'pparse', 'var': 0, 'p': pp()}])
+        out.append([{'op': 'tparse', 't': tt(rng.random() < 0.3)}, {'op': 'compile', 'var': 0, 'a': ca}, {'op': 'gen', 'var': 0, 'a': ga},
+                    {'op': 'compile', 'var': 1, 'a': dict(ca, asmodel=True)}, {'op': 'mparse', 'var': 1, 'p': pp()},
+                    {'op': 'compile', 'var': 2, 'a': ca}])
+    return out
+
+
 def directed_parser_settings(rng):
     """ONE generated parser object per grammar, and on it every text under every per-call setting, in a shuffled order
     (for the grammars of the regex family: under every form of the regex settings): whatever a parse leaves on the
     parser object - or computes once per object - under one setting meets every other setting and every text."""
     out = []
-    for g in GRAMS:
+    for g in [x for x in GRAMS if x not in SHAPE_GRAMS[1:]]:
         texts = rng.sample(range(NTEXT[g]), min(4, NTEXT[g]))
         sets = [0] + rng.sample(REGEX_SETTINGS, 5) if g in REGEX_GRAMS else [0, 1, 2, 3, 5, 6]
         cells = [(t, ps) for t in texts for ps in sets]
@@ -1719,7 +1963,7 @@ def directed_ephemeral(rng):
     """one model / one generated parser object, a run of parses each with its own short-lived semantics object"""
     out = []
     ca = {'name': 0, 'sem': None, 'asmodel': False, 'bopt': None, 'cs': 0}
-    for g in GRAMS:
+    for g in [x for x in GRAMS if x not in SHAPE_GRAMS[1:]]:
         def pp(serial):
             return {'g': g, 'text': rng.randrange(min(2, NTEXT[g])) if rng.random() < 0.7 else rng.randrange(NTEXT[g]),
                     'start': 0, 'ps': 0, 'sem': eph_id(rng, serial), 'asmodel': False, 'cfgobj': None}
@@ -1758,6 +2002,10 @@ def gen_cargs(rng, g=None):
         a['asmodel'] = rng.random() < 0.3
     if rng.random() < 0.25:
         a['cs'] = rng.choice([1, 2, 3, 4, 5, 6])
+        if a['cs'] == 6 and a['g'] in SHAPE_GRAMS:
+            # compile settings also configure the bootstrap parse of the grammar TEXT: without memoization it takes
+            # minutes on nested brackets (exponential backtracking, not a matter of this property)
+            a['cs'] = 5
     return a
 
 
@@ -1800,6 +2048,9 @@ def gen_history(rng, maxlen):
     if rng.random() < 0.25:
         # sibling grammars: equal-valued scalars of different types meet in one process
         focus = rng.sample(SIBLINGS, rng.choice([2, 3]))
+    if rng.random() < 0.1:
+        # grammars that are not in the optimizer's normal form: the first parse builds (and caches) a rewritten copy
+        focus = rng.sample(SHAPE_GRAMS, rng.choice([1, 1, 2]))
     regex_mode = rng.random() < 0.2
     if regex_mode:
         # the grammars of the regex-form family: one pattern text reaches the input layer in several forms
@@ -2021,6 +2272,7 @@ def run_histories(chk: Check, pool: Pool, mr: ModelRun, variant: str):
     histories += directed_ephemeral(rng)
     histories += directed_regex_forms(rng)
     histories += directed_parser_settings(rng)
+    histories += directed_model_use(rng, everything=not chk.quick)
     # directed histories around the witnesses of the Coq refutation, so that the cache paths are always reached
     for g in GRAMS:
         histories.append([{'op': 'compile', 'var': 0, 'a': {'g': g, 'name': 0, 'sem': None, 'asmodel': False, 'bopt': None, 'cs': 0}},
@@ -2074,7 +2326,8 @@ def run_histories(chk: Check, pool: Pool, mr: ModelRun, variant: str):
             if t:
                 needed |= {(t['name'], t['g'], t['ts']), (0, t['g'], t['ts']), (t['name'], t['g'], 0)}
     triples = [(nm, g, cs) for nm in (0, 1, 2) for g in GRAMS for cs in VALID_SETTINGS
-               if (cs not in REGEX_SETTINGS or g in REGEX_GRAMS) and (nm, g, cs) in needed]
+               if (cs not in REGEX_SETTINGS or g in REGEX_GRAMS) and (nm, g, cs) in needed
+               and not (cs == 6 and g in SHAPE_GRAMS)]     # succeeds, after minutes (see gen_cargs)
     for nm, g, cs in triples:
         boot_scripts.append([{'op': 'compile', 'var': 0, 'a': {'g': g, 'name': nm, 'sem': None, 'asmodel': False,
                                                                'bopt': None, 'cs': cs}}])
@@ -2344,6 +2597,14 @@ def run_writeset(chk: Check, pool: Pool):
         for p in (p1, p2):
             p['cfgobj'] = None
         scripts.append([{'op': 'writeset', 'a': a, 'p1': p1, 'p2': p2}])
+    # the grammars that are not in the optimizer's normal form: the first parse builds the rewritten copy, which shares
+    # nodes and containers with the model
+    for g in SHAPE_GRAMS:
+        for asmodel in (False, True):
+            a = {'g': g, 'name': 0, 'sem': None, 'asmodel': asmodel, 'bopt': None, 'cs': 0}
+            p1, p2 = ({'g': g, 'text': tx, 'start': 0, 'ps': 0, 'sem': None, 'asmodel': False, 'cfgobj': None}
+                      for tx in rng.sample(range(NTEXT[g]), 2))
+            scripts.append([{'op': 'writeset', 'a': a, 'p1': p1, 'p2': p2}])
     res = [r[-1] for r in pool.map(scripts)]
     bad_first = bad_later = bad_pub = bad_rep = 0
     for sc, r in zip(scripts, res):
@@ -2437,7 +2698,6 @@ def run_threads(chk: Check, pool: Pool):
     # after its construction; the followers each make a complete call in every such window (see Stagger in the worker).
     # Mostly over the seed-generated left-recursive grammars: what their parses return depends on the flags the
     # left-recursion analysis leaves on the rules of the optimized copy and on the rule infos cached from them.
-    import random as _random
     srng = _random.Random(f'{PID}-{chk.seed}-stagger')
     ns = 8 if chk.quick else 48
     for j in range(ns):
@@ -2527,11 +2787,14 @@ def main():
     extra['grammars'].update(fam['grammars'])
     extra['texts'].update(fam['texts'])
     extra['settings'] = fam['settings']
-    import random as _random
     lfam = gen_leftrec_family(_random.Random(f'{PID}-{chk.seed}-leftrec'))
     extra['grammars'].update(lfam['grammars'])
     extra['texts'].update(lfam['texts'])
     chk.extra['leftrec_family'] = lfam['describe']
+    sfam = gen_shape_family(_random.Random(f'{PID}-{chk.seed}-shapes'))
+    extra['grammars'].update(sfam['grammars'])
+    extra['texts'].update(sfam['texts'])
+    chk.extra['shape_family'] = sfam['describe']
     chk.extra['regex_form_family'] = fam['describe']
     EXTRA_ENV['json'] = json.dumps(extra, sort_keys=True)
     chk.rule = ('A1: random histories (2..8 calls quick, 2..12 thorough) of compile / model.parse / compile+parse / '
@@ -2561,6 +2824,11 @@ def main():
                 '(or blocks on the lock); one window per cold model at every 6th (2nd thorough) such line, the scripts sharing '
                 'the lines out, plus rounds with a window at every line; every result and a later sequential parse on the '
                 'shared model compared with the same call on a model no other thread touched. '
+                '10 % of the histories, 12 directed histories (36 thorough) and 6 write-set scripts over 3 seed-generated '
+                'grammars that are not in the normal form Grammar.optimized() produces (redundant groups, nested optionals, '
+                'grouped closure / join bodies, rule-call chains, includes, leading-bar choices, parameters, directives; texts: '
+                'random derivations, one cut short, one with a foreign word); the grammar model compared before / after every '
+                'parse and across histories by asjson, by a walk over node classes and fields, by pretty() and pretty_lean(). '
                 'Non-trivial: the call has at least one earlier call; distinct by content of the history prefix.')
     chk.trusted += ['CPython 3.12 (fork, threads, GIL), the abstraction of call arguments to Lib/Api.v identities '
                     '(harness Abstraction), sha256 injective on the pool grammars',
